@@ -180,6 +180,16 @@ def gen_input(rng, **o):
             rng.shuffle(st)
         if o.get('last_unused', False) and nt >= 2:
             st = [min(t, nt - 2) for t in st]
+        u = o.get('unused')
+        if u and u != 'none' and nt >= 2:
+            # templates without any spike at the start / in the middle / at the end / at both ends of the id range
+            drop = {'start': {0}, 'end': {nt - 1}, 'ends': {0, nt - 1} if nt >= 3 else {nt - 1},
+                    'middle': {rng.randrange(1, nt - 1)} if nt >= 3 else {0}}[u]
+            live = [t for t in range(nt) if t not in drop]
+            st = [t if t not in drop else rng.choice(live) for t in st]
+            for k, t in enumerate(live[:len(st)]):      # every other template keeps a spike when there is room
+                if t not in st:
+                    st[k] = t
     n_ops = o.get('n_ops', rng.choice([0, 1, 1, 2, 2, 3, 4, 5, 6]))
     if 'sc' in o:
         sc, names = list(o['sc']), ['given']
